@@ -43,3 +43,5 @@ fn ob<T: ?Sized + AsRef<[u8]>>(x: Option<&T>) -> Option<Vec<u8>> {
 include!("c12.rs");
 include!("c02.rs");
 include!("c01.rs");
+include!("c09.rs");
+include!("c10.rs");
